@@ -29,3 +29,9 @@ add("C13", "model_checking",
     "Trusted: TLC, virtual clock, wire-level detection of resumption (server sent no Certificate). A laxer client is emulated for SNI/suite-inconsistent offers in TLS<=1.2 (tlslite's own client API refuses them with ValueError).",
     "TLA+ history model + TLC-enumerated histories replayed into live connections (spec->code)",
     "tla-resumption")
+add("C16", "model_checking",
+    "PostHS.tla (on top of Record.tla) states the post-handshake obligations: keys switch exactly after a KeyUpdate is sent/accepted, update_requested is answered before more application data, a heartbeat response exists only for an outstanding accepted request with exactly its payload, the server records a post-handshake client certificate only after the client's Finished was accepted, and malformed/unsolicited/not-permitted control messages are fatal (or silently dropped where RFC 6520 says so). ALL histories up to length 3 (thorough 4) over {write, read, key-update req/noreq, heartbeat, request-client-auth} x both endpoints (TLS 1.3; TLS 1.2: heartbeat) plus seeded longer ones run on live pairs; every record, key change and control message is logged and TLC validates each trace against PostHSTrace.tla with Record.tla's FIFO/prefix invariants in every state; 12 adversarial control-message kinds are judged by BadControl.",
+    "DESIGN.md section 5 C16, section 3.5",
+    "Trusted: TLC, record tracer and message hook, reference stream. NewSessionTicket delivery is covered as part of every TLS 1.3 history (ticket_count 0..2).",
+    "TLA+ spec + TLC trace validation of exhaustive short operation histories on live pairs (code->spec)",
+    "tla-record")
